@@ -1,4 +1,4 @@
 SPECIFICATION TSpec
-INVARIANTS RootCanonicalT GetsT IterT ReopenT ProofT MutatedProofNeverLiesT
+INVARIANTS DeriveShaT RootCanonicalT GetsT IterT ReopenT ProofT MutatedProofNeverLiesT
 POSTCONDITION TraceAccepted
 CHECK_DEADLOCK FALSE
